@@ -33,6 +33,31 @@ def auer_probe(rng):
             "auer_empirical": True, "no_shrink": True}
 
 
+def auer_holdback(rng):
+    """Auer with its real empirical model and NOISELESS observations (always a valid history): a design that is
+    dominated from far away leaves S early (so positions in S stop being design ids), a strong design p sits in
+    P1 and must be held back in S for as long as a nearby weaker design q (gap a little above eps) is undecided,
+    plus incomparable bystanders; the roles are assigned to ids in a random order"""
+    m = 2
+    eps = rng.choice([0.05, 0.0625, 0.125])
+    g = eps * rng.choice([2.0, 3.0, 3.25, 4.0])
+    base = [dy(rng, 0, 2, 4) for _ in range(m)]
+    roles = [[-5.0 + dy(rng, -1, 0, 4), -5.0], list(base), [b - g for b in base], [base[0] + 2.0, base[1] - 2.0]]
+    extra = rng.choice([0, 0, 1, 2])
+    for _ in range(extra):
+        roles.append(rng.choice([[base[0] - 2.0 - dy(rng, 0, 1, 4), base[1] + 2.0], [-6.0, -4.0 - dy(rng, 0, 1, 4)], [base[0] - g / 2, base[1] - 2 * g]]))
+    K = len(roles)
+    perm = list(range(K)); rng.shuffle(perm)
+    Y = [None] * K
+    for r, k in zip(roles, perm):
+        Y[k] = r
+    X = [[(k % 4) / 4.0, (k // 4) / 4.0] for k in range(K)]
+    noise = [[[0.0] * m for _ in range(K)] for _ in range(2)]
+    return {"algo": "Auer-real", "cone": "orthant2", "W": gen.CONES_2D["orthant2"][0], "X": X, "Y": Y, "eps": eps, "valid_by_construction": True,
+            "style": "auer-holdback", "means": [Y], "hw": [[[1.0] * m for _ in range(K)]], "batch": 1, "contraction": rng.choice([16.0, 32.0, 64.0]),
+            "costs": None, "budget": None, "auer_empirical": False, "obs_noise": noise}
+
+
 def real_spec(rng, algo):
     """PaVeBa / Auer with their real empirical model and scripted (dyadic, small) observation noise"""
     m = 2
